@@ -212,6 +212,32 @@ func cmdCheck(args []string) int {
 		lemmaNames = append(lemmaNames, lm.Name)
 		vcs = append(vcs, lv...)
 	}
+	// termination of every recursive spec function that can appear in this run's VCs
+	specSeen := map[string]bool{}
+	for _, k := range sortedKeys(P.specs) {
+		sf := P.specs[k]
+		if specSeen[sf.Name] || *only != "" {
+			continue
+		}
+		specSeen[sf.Name] = true
+		sym := "sp_" + sanitize(sf.Name)
+		used := false
+		for _, vc := range vcs {
+			if strings.Contains(vc.Text, sym) {
+				used = true
+				break
+			}
+		}
+		if !used {
+			continue
+		}
+		tv, err := P.specTerminationVCs(sf)
+		if err != nil {
+			bindingFailures = append(bindingFailures, err.Error())
+			continue
+		}
+		vcs = append(vcs, tv...)
+	}
 	if *onlyOb != "" {
 		var f []*VC
 		for _, vc := range vcs {
